@@ -331,6 +331,25 @@ fn gen_c10(c: &mut Choices) -> Case {
     for n in 0..n_pre {
         pre.push(distractor(&mut g, n));
     }
+    // history triple: an assignment to `av`, then a component with a call child (which must
+    // consume the remembered assignment target), later the subject `<C2>{av}</C2>`. (Without the
+    // call-child component in between this would be the known D11 shape.)
+    // (only with enableObjectSlots on: otherwise the call-child component does not consult the
+    // remembered target and the subject would be the known D11 shape itself)
+    let triple = g.c.chance(1, 6) && opts.enable_object_slots;
+    if triple {
+        g.label("distractor=assignment-then-call-child-before-same-name-child");
+        pre.push(Item::Raw("av = x;".into()));
+        pre.push(Item::Site {
+            tpl: "export const dzt = @H@;".into(),
+            node: Node::El(Element {
+                tag: Tag::Bound("C1".into()),
+                attrs: vec![],
+                children: vec![Child::Expr(Ex::src("f1()", Cat::Call))],
+                self_closing: false,
+            }),
+        });
+    }
     let ctx = &CONTEXTS[g.c.pick(CONTEXTS.len())];
     let needy = g.c.chance(1, 2);
     let mut node = if needy { needy_node(&mut g) } else { g.node(0) };
@@ -345,8 +364,21 @@ fn gen_c10(c: &mut Choices) -> Case {
             self_closing: false,
         });
     }
+    if triple {
+        node = Node::El(Element {
+            tag: Tag::Bound("C2".into()),
+            attrs: vec![],
+            children: vec![Child::Expr(Ex::src("av", Cat::IdentBound))],
+            self_closing: false,
+        });
+    }
     let subject = Item::Site {
-        tpl: fill(ctx.tpl, 0, "@H@"),
+        tpl: if triple {
+            // module level, so that the assignment and the subject share one traversal scope
+            "export const e0 = @H@;".to_string()
+        } else {
+            fill(ctx.tpl, 0, "@H@")
+        },
         node,
     };
     let mut post = vec![];
@@ -371,6 +403,9 @@ fn gen_c10(c: &mut Choices) -> Case {
     // distractors that contain raw JSX text (kind 7) cannot be rendered as reference; C10 needs
     // no reference: it compares the subject alone vs composed
     let mut composed: Vec<Item> = vec![];
+    if triple {
+        composed.push(Item::Raw("let av = x;".into()));
+    }
     if let Some(l) = &vue_line {
         composed.push(Item::Raw(l.clone()));
     }
@@ -378,6 +413,9 @@ fn gen_c10(c: &mut Choices) -> Case {
     composed.push(subject.clone());
     composed.extend(post.iter().cloned());
     let mut alone = vec![];
+    if triple {
+        alone.push(Item::Raw("let av = x;".into()));
+    }
     if g.labels.iter().any(|l| l == "subject=user-Fragment-alias-tag") {
         // the subject references this binding: it belongs to the subject, not to the context
         alone.push(Item::Raw(vue_line.clone().unwrap()));
@@ -387,6 +425,9 @@ fn gen_c10(c: &mut Choices) -> Case {
     let (main_alone, _) = g.assemble_items(&alone);
     // every distractor alone (with the subject removed)
     let mut without: Vec<Item> = vec![];
+    if triple {
+        without.push(Item::Raw("let av = x;".into()));
+    }
     if let Some(l) = &vue_line {
         without.push(Item::Raw(l.clone()));
     }
@@ -520,6 +561,7 @@ impl Property for C10 {
             "distractor=fragment-use",
             "distractor=module-level-temporary",
             "distractor=user-import-Fragment-alias",
+            "distractor=assignment-then-call-child-before-same-name-child",
         ]
     }
 }
